@@ -144,7 +144,8 @@ class C09(core.Prop):
         if shape['mode'] == 'sampler':
             if obs[0] != 'ok':
                 raise symx.PathAbort()
-            return [('sampled', True)] + valence_clauses(obs[1]['mol'])
+            from .c16 import CONFIGS
+            return [('sampled', True)] + valence_clauses(obs[1]['mol'], written_hydrogen_weights(CONFIGS[shape['sampler']['cfg']]['frags']))
         if obs[0] != 'ok':
             raise symx.PathAbort()      # not resolvable: outside the property's quantifier
         cl = [('resolved', True)] + valence_clauses(obs[1]['mol'])
@@ -166,7 +167,20 @@ class C09(core.Prop):
     }
 
 
-def valence_clauses(mol):
+def written_hydrogen_weights(frags_text):
+    """fragment name -> weights annotated on explicitly written hydrogens of that fragment ('[H;0.5]', '[H;w=0.5]')"""
+    import re
+    out = {}
+    for d in frags_text[1:-1].split(',#'):
+        name, body = d.lstrip('#').split('=', 1)
+        for m in re.finditer(r'\[H;(?:w=)?([0-9.+-eE]+)[;\]]', body):
+            out.setdefault(name, []).append(float(m.group(1)))
+    return out
+
+
+def valence_clauses(mol, written_h=None):
+    """written_h: weights of the annotated hydrogens written in each fragment (sampler output carries no 'mapping' to
+    tell a written hydrogen from a completed one)"""
     nodes = mol['nodes']
     cl = []
     g, h_ok, hs = pl.observed_heavy_graph(mol)
@@ -195,7 +209,8 @@ def valence_clauses(mol):
             continue
         cl.append(('hydrogen_inherits', band(nodes[h].get('fragid') == nodes[x].get('fragid'),
                                              nodes[h].get('fragname') == nodes[x].get('fragname'))))
-        if 'mapping' not in nodes[h]:
+        if 'mapping' not in nodes[h] and not (written_h and not symx.is_sym(nodes[h].get('weight')) and
+                                             nodes[h].get('weight') in (written_h or {}).get(nodes[h].get('fragname'), [])):
             # completed hydrogens carry their atom's weight (an explicitly written, annotated hydrogen keeps its own)
             cl.append(('hydrogen_inherits_weight', gg.val_eq(nodes[h].get('weight'), nodes[x].get('weight'))))
     return cl
